@@ -83,6 +83,7 @@ class Harness:
     timeout: int = 0
     cbmc: str = ""
     unwindset: str = ""
+    panic: str = ""
     fns: list = field(default_factory=list)
     file: str = ""
     contract_target: str = ""
@@ -188,7 +189,7 @@ def harnesses_of(app, ov):
             name=name, unit=ov.unit, crate=ov.crate, props=kv["prop"].split(","), kind=kv["kind"],
             tier=kv["tier"], cls=kv["class"], expect_fail=(kv.get("expect") == "fail"),
             finding=kv.get("finding", ""), bound=kv.get("bound", ""), timeout=int(kv.get("timeout", "0")),
-            cbmc=kv.get("cbmc", ""), unwindset=kv.get("unwindset", ""), fns=[x for x in kv.get("fns", "").split(";") if x],
+            cbmc=kv.get("cbmc", ""), unwindset=kv.get("unwindset", ""), panic=kv.get("panic", ""), fns=[x for x in kv.get("fns", "").split(";") if x],
             file=app.file, contract_target=target, text=text))
     return out
 
